@@ -57,6 +57,12 @@ func genYEncFuzz(r *Rng, tier string, n int, emit func(Case)) {
 			}
 		}
 	}
+	// a complete JSON document followed by something: only white space may follow
+	for i := 0; i < 120 && i < n; i++ {
+		c := genYEncCase(r, tier)
+		emit(Case{"k": "yencfuzz", "mode": "trail", "top": c["top"], "data": c["data"], "enc": pick(r, []string{"rfc7951", "json"}),
+			"tail": pick(r, []string{"", " ", "\n", "\t \r\n", "}", "]", " }", "\n]", "}}", "] garbage", "x", "1", "{}", ",", "null", "\"a\"", " {\"a\":1}", "\x00", "//"})})
+	}
 	for i := 0; i < n; i++ {
 		c := genYEncCase(r, tier)
 		emit(Case{"k": "yencfuzz", "mode": "bytes", "top": c["top"], "data": c["data"], "enc": pick(r, []string{"rfc7951", "json", "xml"}),
@@ -222,6 +228,13 @@ func runYEncFuzz(c Case) (out string) {
 		bs = encoding.ToJSON(ms, data)
 	default:
 		bs = encoding.ToXML(ms, data)
+	}
+	if cstr(c, "mode") == "trail" {
+		_, derr := encoding.NewUnmarshaller(encTypeOf(cstr(c, "enc"))).SetValidation(schema.DontValidate).Unmarshal(ms, append(bs, []byte(cstr(c, "tail"))...))
+		if derr != nil {
+			return "trail:err"
+		}
+		return "trail:ok"
 	}
 	r := NewRng(uint64(cint(c, "mseed")) + 1)
 	s := string(bs)
